@@ -101,6 +101,7 @@ def equal_terms(report, pcs, a, b, timeout_ms):
     r = s.check()
     if r == z3.unknown:
         raise Inconclusive('solver timeout on a layout equality')
+    common.cross_check(s, r)
     return s.model() if r == z3.sat else None
 
 
@@ -115,6 +116,7 @@ def find_model(report, pcs, cond, timeout_ms):
     r = s.check()
     if r == z3.unknown:
         raise Inconclusive('solver timeout on a layout inequality')
+    common.cross_check(s, r)
     return s.model() if r == z3.sat else None
 
 
@@ -321,6 +323,8 @@ def edit_insert(I, P, st, mref):
 
 
 def run(tier, seed, only=None):
+    import os as _os
+    _os.environ.setdefault('VERIF_CROSS', '1')        # every obligation-level query of this check is re-decided by cvc5
     report = common.Report('C11', tier, seed)
     ctx = common.Ctx()
     timeout_ms = 120000 if tier == 'quick' else 600000
